@@ -470,7 +470,10 @@ class Lexer:
                     here = SourcePos(fname, startline, startcol)
                     if not token.replace("_", ""):
                         raise CklSyntaxError("Invalid hex literal", here)
-                    token = str(int(token.replace("_", ""), 16))
+                    try:
+                        token = str(int(token.replace("_", ""), 16))
+                    except ValueError:
+                        raise CklSyntaxError("Hex literal too long", here)
                     self.tokens.append(Token(token, "int", here))
                     token = ""
                     pos -= 1
@@ -487,9 +490,11 @@ class Lexer:
                     here = SourcePos(fname, startline, startcol)
                     if not token.replace("_", ""):
                         raise CklSyntaxError("Invalid binary literal", here)
-                    self.tokens.append(
-                        Token(str(int(token.replace("_", ""), 2)), "int", here)
-                    )
+                    try:
+                        token = str(int(token.replace("_", ""), 2))
+                    except ValueError:
+                        raise CklSyntaxError("Binary literal too long", here)
+                    self.tokens.append(Token(token, "int", here))
                     token = ""
                     pos -= 1
                     updatepos = False
